@@ -511,8 +511,10 @@ def run_property(mod, tier: str, seed: int, replay: str | None = None) -> int:
         wall_s=round(wall, 2),
         violations=len(unknown),
     )
-    edir = VERIF / "evidence"
-    edir.mkdir(exist_ok=True)
+    # (tools/seeded.py runs the checks against PATCHED copies of the repository: those runs must not
+    # overwrite the evidence of the real tree and redirect it; registered commands never set this)
+    edir = Path(os.environ["VF_EVIDENCE_OUT"]) if os.environ.get("VF_EVIDENCE_OUT") else VERIF / "evidence"
+    edir.mkdir(exist_ok=True, parents=True)
     (edir / f"{prop_id}.json").write_text(json.dumps(ev, indent=1, default=str) + "\n")
     print(
         f"{prop_id} tier={tier} seed={seed}: {total.n} cases, "
